@@ -874,6 +874,28 @@ def m_checked_mul(ai, fr, st, bb, t, args, key):
     return EnumV(OPT, {0: (), 1: (r,)}, {1: (fits,), 0: (fits.neg().addc(-1),)}), st
 
 
+
+def m_minmax(is_max):
+    def m(ai, fr, st, bb, t, args, key):
+        """Integer max / min: a fresh value with r >= a, r >= b (resp. <=) and the interval max(lo), max(hi) (resp. min)."""
+        if len(args) != 2 or not (isinstance(args[0], IntV) and isinstance(args[1], IntV)):
+            return None
+        a, b = args
+        (la, ha), (lb, hb) = st.iv(a.lin), st.iv(b.lin)
+        if is_max:
+            v = st.fresh(key + ("max",), max(la, lb), max(ha, hb))
+            r = Lin.var(v)
+            st.assume(r.sub(a.lin))
+            st.assume(r.sub(b.lin))
+        else:
+            v = st.fresh(key + ("min",), min(la, lb), min(ha, hb))
+            r = Lin.var(v)
+            st.assume(a.lin.sub(r))
+            st.assume(b.lin.sub(r))
+        return IntV(r), st
+    return m
+
+
 def m_into(ai, fr, st, bb, t, args, key):
     sty = ai.subst_ty(t.args[0].ty, fr.subst)
     dty = ai.subst_ty(t.dest.ty, fr.subst)
@@ -1077,6 +1099,10 @@ def build_models():
     M["core::num::<impl u16>::to_be_bytes"] = m_to_be_bytes
     M["core::num::<impl u8>::wrapping_add"] = m_wrapping_add
     M["core::num::<impl usize>::checked_mul"] = m_checked_mul
+    for n_ in ("std::cmp::max", "std::cmp::Ord::max"):
+        M[n_] = m_minmax(True)
+    for n_ in ("std::cmp::min", "std::cmp::Ord::min"):
+        M[n_] = m_minmax(False)
     M["<T as std::convert::Into<U>>::into"] = m_into
     M["std::convert::num::from"] = m_int_from
     M["std::convert::From::from"] = m_int_from
